@@ -264,9 +264,47 @@ func vObsDiff(a, b []vObs) string {
 	return ""
 }
 
+// vHighDimVals: n vectors of dimension d with no period in the component index (the
+// block-wise embedding of the 2-d alphabet repeats every two components, which would hide
+// an encoder that repeats or shifts a chunk).
+func vHighDimVals(d, n int) [][]float32 {
+	out := make([][]float32, n)
+	for i := range out {
+		v := make([]float32, d)
+		for j := range v {
+			v[j] = float32((i*31+j*j+j*7+(j/97)*5)%23) - 11
+		}
+		v[0] += float32(i)
+		out[i] = v
+	}
+	return out
+}
+
+// vSerDimCfgs: the dimension as a size parameter of the encoders: around 1024 / 2048 /
+// 4096 components (chunked or buffered encoders) and a few small odd ones.
+func vSerDimCfgs(tier string) []vVecCfg {
+	dims := []int{5, 64, 1023, 1024, 1025, 1536, 4097}
+	if tier == "thorough" {
+		dims = append(dims, 2048, 2049, 8193, 16385)
+	}
+	var out []vVecCfg
+	for _, d := range dims {
+		out = append(out,
+			vVecCfg{Kind: "flat", Metric: Euclidean, Dim: d},
+			vVecCfg{Kind: "hnsw", Metric: L2Squared, Dim: d, M: 3, Ef: 8},
+			vVecCfg{Kind: "ivf", Metric: Euclidean, Dim: d, NList: 2, Train: 0},
+			vVecCfg{Kind: "pq", Metric: Euclidean, Dim: d, M: 1, NBits: 2, Train: 0},
+			vVecCfg{Kind: "ivfpq", Metric: Euclidean, Dim: d, NList: 2, M: 1, NBits: 2, Train: 0})
+	}
+	return out
+}
+
 func vSerVecKind(cfg vVecCfg) *vSerKind {
 	vals := vVecAlphabet(cfg.Dim)
 	vals = vals[:len(vals)-1] // no zero vector
+	if cfg.Dim > 4 {
+		vals = vHighDimVals(cfg.Dim, 5)
+	}
 	fresh := func() any {
 		c := cfg
 		var idx VectorIndex
@@ -953,13 +991,29 @@ func vSerShards(mode, tier string) []vShard {
 			}
 		}})
 	}
+	if mode == "c07" {
+		// the dimension as a size parameter (five vectors, histories of depth 2)
+		for _, cfg := range vSerDimCfgs(tier) {
+			k := vSerVecKind(cfg)
+			sh = append(sh, vShard{Name: "dims/" + strings.ReplaceAll(k.name, " ", ","), Run: func(c *vCtx) {
+				s := &vSerSys{c: c, k: k, mode: mode, maxN: 2, contDepth: 0}
+				s.Reset()
+				s.roundTrip(nil)
+				vBFS(c, s, 2)
+			}})
+		}
+	}
 	return sh
 }
 
 func vSerReplay(mode string) func(c *vCtx, v *vViolation) bool {
 	return func(c *vCtx, v *vViolation) bool {
 		name := strings.TrimSuffix(v.Config, " untrained")
-		for _, k := range vSerKinds("thorough") {
+		kinds := vSerKinds("thorough")
+		for _, cfg := range vSerDimCfgs("thorough") {
+			kinds = append(kinds, vSerVecKind(cfg))
+		}
+		for _, k := range kinds {
 			if k.name != name {
 				continue
 			}
